@@ -8,6 +8,48 @@ HERE = os.path.dirname(os.path.dirname(os.path.abspath(__file__)))
 
 # id -> (technique, level text, level note, design ref)
 CLAIMS = {
+    "C07": (
+        "must-dataflow (typestate STORED/TIME/SLICED) over send_event_time;send_out_state of all 19 handler classes with "
+        "MRO-resolved helper inlining; package-wide who-may-write inventory with receiver provenance; value-provenance "
+        "classification of every velocity write; shape check of the time-slice routine and of _get_new_velocity",
+        "Decides on every path of every handler that a velocity is cleared, replaced or changed only after the stored "
+        "state was time-sliced to the event time, and granted only with the event time as stamp (so a new trajectory "
+        "starts where the old one ended); that positions are written only by constructors, the global-state setter, the "
+        "role-identified time-slice routine p + v (T - t) (wrapped, guarded, stamping) and the cell-boundary snap after a "
+        "full slice; that identifiers and charges are never written; that every velocity value is None, a moved/copied "
+        "unit velocity, a zero vector, the configured initial velocity or a norm-preserving rotation / relocation of one; "
+        "and that candidate times are built through Time.__add__ from a unit's time stamp. Monotonicity of committed "
+        "times, float equality of positions and the dynamic count of moving chains are not decided.",
+        "Trusted: role identification (jfsa/protocol.py Roles, jfsa/handlers.py is_time_slice_routine); the enumerated "
+        "velocity provenances; loops over leaf collections run at least once (register rule only).",
+        "DESIGN.md section 3, C07"),
+    "C12": (
+        "must-dataflow over the out-state routines of all LeavesEventHandler subclasses (facts CLEAN / REG_OK, same-block "
+        "cnode pairing); structural rules on the role-identified register / commit routines; co-write rule; "
+        "exhaustiveness of the getattr mode dispatch",
+        "Decides on every path that a leaf velocity write is registered (for the same cnode where syntactically visible) "
+        "and committed to the ancestors before the out-state is returned; that the commit time-slices a moving composite "
+        "object before changing its velocity in place, stamps one that starts to move with the event time, applies each "
+        "weight once and walks all ancestors and children; that velocity and time stamp become None together; and that "
+        "every aim mode of the switcher has its out-state routine. Barycentre / velocity equalities on floats over "
+        "histories and the random creators' geometry are not decided.",
+        "Trusted: role identification of register/commit by the pending-changes dictionary; the assumption that leaf "
+        "collections are non-empty.",
+        "DESIGN.md section 3, C12"),
+    "C13": (
+        "escape/alias analysis of the extraction path (Unit constructor arguments, copy_method binding through the call "
+        "graph); effect check (no writes through parameter-derived receivers) on consumers of the uncopied state; "
+        "who-may-write / who-may-call chains for the global stores; completeness of insertion; move-or-copy rule",
+        "Decides that every branch handed out for an identifier consists of freshly copied positions, velocities and "
+        "time stamps for the node, its ancestors and all descendants; that the only consumers of the uncopied full state "
+        "never write through it; that global positions and lifting dictionaries are changed only by the state setters, "
+        "these only by insert_into_global_state, and that only by the commit step of the run loops; that insertion stores "
+        "every field of every cnode unconditionally and recurses into all children; that handlers never mutate a stale "
+        "(post-commit, aliased) state; that a velocity object is moved or copied, never shared; and the shape of the "
+        "independent-active rule. Non-interference over arbitrary dynamic operation sequences is not decided.",
+        "Trusted: parameter taint seeded by Node/Unit/Any annotations (jfsa/writers.py); identifiers and charges may be "
+        "aliased because nothing writes them (R7.3).",
+        "DESIGN.md section 3, C13"),
     "C17": (
         "must-dataflow (typestate) over the sampling / end-of-run handlers and over both mediator run loops with helper "
         "inlining; reflection-dispatch resolution table; config-graph rule on self-clocked taggers; syntactic clock rules",
